@@ -322,6 +322,39 @@ fn path_case(ctx: &mut Ctx, r: &mut Rng, long: bool, for_sim: bool) -> Option<Bu
         base += l.length.value;
     }
     if !okg { ctx.fail("C06", "grades_are_slopes", "path", "a grade coefficient / offset differs from the slope of the link's elevation points".into(), input.clone()); }
+    // curve coefficients = heading-change rate (the smaller angular distance) through the three-coefficient formula
+    ctx.checked("C06", "curves_are_heading_change_rates");
+    {
+        let rev = uc::REV.value;
+        let one_degree = uc::DEG.value / (uc::FT.value * 100.0);
+        let (c0, c1, c2) = (tp.curve_coeff_0.value, tp.curve_coeff_1.value, tp.curve_coeff_2.value);
+        let mut ci = 0usize;
+        let mut base = 0.0;
+        let mut bad = None;
+        for li in &route {
+            let l = &net[li.idx()];
+            if l.headings.is_empty() {
+                let c = &t.curves()[ci];
+                if c.res_coeff.value != 0.0 || c.offset.value != base { bad = Some(format!("link {} without headings: coeff {} at {}", li.idx(), c.res_coeff.value, c.offset.value)); }
+                ci += 1;
+            } else {
+                for w in l.headings.windows(2) {
+                    let dh = (w[1].heading.value - w[0].heading.value).abs();
+                    let turn = dh.min(rev - dh);
+                    let len = w[1].offset.value - w[0].offset.value;
+                    let curv = turn / len;
+                    let want = if curv < one_degree { c0 * curv } else { c0 * one_degree + c1 * (curv - one_degree) + c2 * (curv - one_degree) * (curv - one_degree) };
+                    let c = &t.curves()[ci];
+                    if !close(c.res_coeff.value, want, want.abs().max(1e-6) * 1.0e3) || c.offset.value != base + w[0].offset.value {
+                        bad = Some(format!("link {} headings {} -> {} over {} m: coefficient {} but the heading-change rate gives {}", li.idx(), w[0].heading.value, w[1].heading.value, len, c.res_coeff.value, want));
+                    }
+                    ci += 1;
+                }
+            }
+            base += l.length.value;
+        }
+        if let Some(d) = bad { ctx.fail("C06", "curves_are_heading_change_rates", "path", d, input.clone()); }
+    }
     ctx.checked("C06", "catenary_shifted");
     let got: Vec<(f64, f64, f64)> = t.cat_power_limits().iter().map(|c| (c.offset_start.value, c.offset_end.value, c.power_limit.value)).collect();
     if got != cats { ctx.fail("C06", "catenary_shifted", "path", "catenary limits are not the links' sections shifted by the link base offsets".into(), input.clone()); }
@@ -599,6 +632,16 @@ fn oracle_levels(ctx: &mut Ctx, case: &str, con: &Consist, con0: &Consist, s: &T
         format!("consist energy_fuel {} / energy_res {} vs sums {} / {}", con.state.energy_fuel.value, con.state.energy_res.value, ef, er));
 }
 
+
+/// one `bp_recalc` op: the real BrakingPoints::recalc result for the current path / resistance / brake
+fn emit_recalc(ctx: &mut Ctx, sim: &SpeedLimitTrainSim) {
+    let t = &sim.path_tpc;
+    let args = format!("{} {} {} {} {} {} {} {}", tok_prcs(t.grades()), tok_prcs(t.curves()),
+        seq(t.speed_points(), |q| format!("{} {}", f(q.offset.value), f(q.speed_limit.value))),
+        f(t.offset_begin().value), f(t.offset_end().value), tok_res(&sim.train_res), tok_state(&sim.state), f(sim.fric_brake.force_max.value));
+    ctx.op("C03", "bp_recalc", &args, &format!("ok {}", tok_bp(&sim.braking_points)));
+}
+
 fn speed_limit_case(ctx: &mut Ctx, r: &mut Rng, max_steps: usize) {
     let Some(bu) = path_case(ctx, r, false, true) else { return; };
     let len = bu.tp.length.value;
@@ -638,6 +681,7 @@ fn speed_limit_case(ctx: &mut Ctx, r: &mut Rng, max_steps: usize) {
     // braking points must be rebuilt with the real resistance model
     if !matches!(guard(|| sim.extend_path(&bu.net, &[])), Some(Ok(()))) { ctx.count("train.sl.recalc_failed"); return; }
     ctx.count("train.sl.cases");
+    emit_recalc(ctx, &sim);
     let mut tpc = sim.path_tpc.clone();
     let mut tpc_tok = tok_tpc_in(&tpc, &bu.tp);
     let input = json!({"kind": "speed_limit", "network": serde_json::to_value(&bu.net).unwrap(), "train_params": serde_json::to_value(&bu.tp).unwrap(),
@@ -661,6 +705,7 @@ fn speed_limit_case(ctx: &mut Ctx, r: &mut Rng, max_steps: usize) {
             let okx = guard(|| sim.extend_path(&bu.net, &[li]));
             if !matches!(okx, Some(Ok(()))) { ctx.count("train.sl.mid_run_extend_failed"); return; }
             ctx.count("train.sl.mid_run_extend");
+            emit_recalc(ctx, &sim);
             if pending.is_empty() { sim.finish(); }
             tpc = sim.path_tpc.clone();
             tpc_tok = tok_tpc_in(&tpc, &bu.tp);
